@@ -37,6 +37,7 @@ def run(ctx: Ctx) -> None:
     _memo.rule_isinstance_on_class(ctx, ['graphiq/utils/relabel_module.py'])
     _memo.rule_zip_truncation(ctx, ['graphiq/utils/relabel_module.py'])
     _memo.rule_search_fallthrough(ctx, ['graphiq/utils/relabel_module.py'])
+    _memo.rule_zip_pairing(ctx, ['graphiq/utils/relabel_module.py'])
     orbits.rule_orbit_provenance(ctx, ["lc_orbit_finder", "rgs_orbit_finder", "linear_partial_orbit", "depth_first_orbit"])
     orbits.rule_automorph(ctx)
     orbits.rule_iso_finder_bounds(ctx)
